@@ -112,6 +112,9 @@ def Ty.methods : Ty → List Nat
 def UKind.defaultBasic : UKind → Basic
   | .bool => .bool | .int => .int | .rune => .int32 | .float => .float64 | .string => .string
 
+/-- method `j` is spelled `M<j>` (exported) when `j < 8`, `m<j>` (not exported) otherwise -/
+def methodExported (j : Nat) : Bool := decide (j < 8)
+
 /-- `a ⊆ b` on method-name lists -/
 def subset (a b : List Nat) : Bool := a.all (fun m => b.contains m)
 
@@ -219,6 +222,7 @@ mutual
     | call (f : Nat) (args : Args)
     | conv (t : Ty) (e : Expr)
     | index (a i : Expr)
+    | assert (t : Ty) (e : Expr)          -- e.(T)
   inductive Args where
     | nil
     | cons (e : Expr) (rest : Args)
@@ -239,6 +243,7 @@ mutual
     | decl (t : Ty) (e : Expr)            -- var v T = e
     | declz (t : Ty)                      -- var v T
     | define (e : Expr)                   -- v := e
+    | defineOk (t : Ty) (e : Expr)        -- v, ok := e.(T)
     | assign (i : Nat) (e : Expr)         -- v = e
     | opassign (op : BinOp) (i : Nat) (e : Expr)   -- v op= e
     | shassign (op : ShOp) (i : Nat) (e : Expr)    -- v <<= e
@@ -279,6 +284,8 @@ structure Rules where
   shift : ShOp → Opnd → Opnd → Res Opnd
   conv : Ty → Opnd → Res Opnd
   index : Opnd → Opnd → Res Opnd
+  /-- type assertion `x.(T)` -/
+  assert : Ty → Opnd → Res Opnd
   /-- arguments against parameters (after all arguments have been checked on their own) -/
   call : List STy → List Opnd → Res Unit
   /-- a call used as a value -/
@@ -352,6 +359,7 @@ mutual
         R.callValue sg.rets
     | .conv t e => do let x ← checkE R env none e; R.conv t x
     | .index a i => do let x ← checkE R env none a; let y ← checkE R env none i; R.index x y
+    | .assert t e => do let x ← checkE R env none e; R.assert t x
   def checkArgs (R : Rules) (env : Env) : Args → Res (List (Shape × Opnd))
     | .nil => .ok []
     | .cons e rest => do
@@ -375,6 +383,10 @@ mutual
       let x ← checkE R env none e
       let t ← R.define x
       .ok (env.vars ++ [t])
+    | .defineOk t e => do
+      let x ← checkE R env none e
+      let y ← R.assert t x
+      .ok (env.vars ++ [y.ty, .s (.basic .bool)])
     | .assign i e => match env.vars[i]? with
       | none => .err
       | some t => do
